@@ -517,6 +517,127 @@ func c17(c *Ctx) {
 		r.Check("no-in-place-extension-of-series-tags", n == 0, token.NoPos, fmt.Sprintf("%d append calls on the Tags field of a series in the backends", n))
 	})
 
+	c.Rule("C17.R11", "compressed payloads are complete: where a backend compresses into a local buffer, the buffer is read (Bytes, String, Len, handed on) only after the compressor was closed by an ordinary call - a deferred Close runs after the bytes were taken and leaves a truncated stream", 2, func(r *Rule) {
+		n := 0
+		for _, fn := range w.ModuleFuncs() {
+			if !strings.Contains(fnPkgPath(fn), "/pkg/backends/") {
+				continue
+			}
+			for _, cl := range callsIn(fn) {
+				name := calleeName(cl)
+				if !(strings.HasPrefix(name, "compress/gzip.NewWriter") || strings.HasPrefix(name, "compress/zlib.NewWriter") || strings.HasPrefix(name, "compress/flate.NewWriter") || strings.Contains(name, "lz4.NewWriter")) {
+					continue
+				}
+				call, ok := cl.(*ssa.Call)
+				if !ok {
+					continue
+				}
+				// destination: a buffer that lives in this function
+				dst := stripConvVal(call.Call.Args[0])
+				if mi, isMI := dst.(*ssa.MakeInterface); isMI {
+					dst = mi.X
+				}
+				buf, isLocal := dst.(*ssa.Alloc)
+				if !isLocal {
+					continue
+				}
+				n++
+				c.SawFunc(FuncName(fn))
+				// the compressor value (first result when the constructor also returns an error)
+				var comp ssa.Value = call
+				if _, isTup := call.Type().(*types.Tuple); isTup {
+					for _, ref := range referrers(call) {
+						if ex, ok := ref.(*ssa.Extract); ok && ex.Index == 0 {
+							comp = ex
+						}
+					}
+				}
+				var closes []ssa.Instruction
+				deferred := false
+				for _, ref := range referrers(comp) {
+					ci, ok := ref.(ssa.CallInstruction)
+					if !ok {
+						continue
+					}
+					cal := staticCallee(ci)
+					if cal == nil || cal.Name() != "Close" || len(ci.Common().Args) == 0 || ci.Common().Args[0] != comp {
+						continue
+					}
+					if _, isDefer := ci.(*ssa.Defer); isDefer {
+						deferred = true
+						continue
+					}
+					closes = append(closes, ci)
+				}
+				key := FuncName(fn) + ":" + shortCallee(cl)
+				reach := reachableFrom(call.Block())
+				for _, ref := range referrers(buf) {
+					use, ok := ref.(ssa.CallInstruction)
+					if !ok || use == cl {
+						continue
+					}
+					if use.Block() != call.Block() && !reach[use.Block()] {
+						continue
+					}
+					if use.Block() == call.Block() && !instrDominates(call, use) {
+						continue
+					}
+					okClosed := false
+					for _, cz := range closes {
+						if instrDominates(cz, use) {
+							okClosed = true
+						}
+					}
+					what := shortCallee(use)
+					why := "read by " + what + " only after the compressor's Close()"
+					if deferred && !okClosed {
+						why += " (the Close is deferred: it runs after this read)"
+					}
+					r.Check(key+":closed-before:"+what, okClosed, use.Pos(), why)
+				}
+			}
+		}
+		r.Check("local-compressor-sites", n >= 2, token.NoPos, fmt.Sprintf("%d compressors writing into a local buffer in the backends", n))
+	})
+
+	c.Rule("C17.R12", "percentile sub-metrics keep their name: a percentile's \"<statistic>_<p>\" string is separated at its LAST underscore wherever a backend takes it apart (sum_squares_90 is statistic sum_squares at 90; a split at the first underscore drops or misnames it)", 1, func(r *Rule) {
+		n := 0
+		for _, fn := range w.ModuleFuncs() {
+			if !strings.Contains(fnPkgPath(fn), "/pkg/backends/") {
+				continue
+			}
+			for _, g := range []*ssa.Function{fn} {
+				for _, cl := range callsIn(g) {
+					name := calleeName(cl)
+					if !strings.HasPrefix(name, "strings.") {
+						continue
+					}
+					a := cl.Common().Args
+					if len(a) < 2 {
+						continue
+					}
+					t, f, _, ok := fieldRefThroughLoad(ptrOrigin(a[0]))
+					if !ok || t != "Percentile" || f != "Str" {
+						continue
+					}
+					sep := ""
+					if s2, isS := constString(a[1]); isS {
+						sep = s2
+					} else if k, isC := constInt(a[1]); isC {
+						sep = string(rune(k))
+					}
+					if sep != "_" {
+						continue
+					}
+					n++
+					c.SawFunc(FuncName(g))
+					r.Check(FuncName(g)+":percentile-name-split-at-last-underscore", strings.HasPrefix(name, "strings.LastIndex"), cl.Pos(), shortCallee(cl)+"(pct.Str, \"_\"): the statistic may itself contain '_'")
+				}
+			}
+		}
+		r.Check("percentile-name-split-sites", n >= 1, token.NoPos, fmt.Sprintf("%d sites take a percentile name apart at '_'", n))
+	})
+
 	c.Rule("C17.R10", "the statsd relay withholds exactly the server's own counters: a counter is skipped if and only if its name starts with \"statsd.\" (with the dot: statsdaemon.x, statsd_exporter.y are ordinary series)", 2, func(r *Rule) {
 		pm := w.Func("pkg/backends/statsdaemon", "(*Client).processMetrics")
 		if pm == nil {
